@@ -18,8 +18,27 @@ def check_C04(rep, known):
     scen_job(rep, 'ScenShoot', 'C04', [r'C04\.', r'build', r'varmap'], known)
 
 
+def mc_job(rep, module, cfg, expect_violation=None, workers=16, env=None):
+    e = {'VERIF_TIER': rep.tier, 'VERIF_SEED': rep.seed}
+    if env: e.update(env)
+    out, st = tlc.run_tlc(module, cfg, workers=workers, env=e)
+    st['module'] = '%s/%s' % (module, cfg)
+    if expect_violation is None:
+        if st['violation']:
+            raise tlc.TlcError('%s/%s: specification-level invariant %s violated' % (module, cfg, st['violation']))
+        rep.add_tlc(st)
+    else:
+        # sensitivity guard: with the named deviations enabled the invariant must be able to fail
+        if st['violation'] != expect_violation:
+            raise tlc.TlcError('%s/%s: expected a violation of %s with deviations enabled (vacuity guard), got %s' % (module, cfg, expect_violation, st['violation']))
+        rep.notes.append('%s/%s violates %s as expected' % (module, cfg, expect_violation))
+
+
 def check_C06(rep, known):
     scen_job(rep, 'ScenShoot', 'C06', [r'C06\.', r'build', r'varmap'], known)
+    mc_job(rep, 'MC_Grids', 'MC_Grids_ideal.cfg')
+    mc_job(rep, 'MC_Grids', 'MC_Grids_old.cfg', expect_violation='RowsCharacterise')
+    mc_job(rep, 'MC_Grids', 'MC_Grids_nocoupling.cfg', expect_violation='RowsCharacterise')
 
 
 def check_C05(rep, known):
@@ -49,11 +68,8 @@ def life_job(rep, own, known):
 
 
 def mc_lifecycle(rep):
-    out, st = tlc.run_tlc('MC_Lifecycle', 'MC_Lifecycle_ideal.cfg', workers=8)
-    if st['violation']:
-        raise tlc.TlcError('Lifecycle ideal configuration violates %s' % st['violation'])
-    st['module'] = 'MC_Lifecycle(ideal)'
-    rep.add_tlc(st)
+    mc_job(rep, 'MC_Lifecycle', 'MC_Lifecycle_ideal.cfg', workers=8)
+    mc_job(rep, 'MC_Lifecycle', 'MC_Lifecycle_asis.cfg', expect_violation='CacheCurrent', workers=8)
 
 
 def check_C13(rep, known):
